@@ -321,9 +321,6 @@ UNIT = {
                  "loops": {1: {"expect_kw": "loop", "invariant": """            invariant
                 current_procedure is None ==> args == args0,
                 current_procedure is Some ==> arity_ok(params_of(*initial_procedure), args0.spec_len()),"""}},
-                 "inserts": [(r"return arity_mismatch_error\(formals, &args\);\s*\}",
-                              "            proof { if *procedure is Builtin { let b = procedure->Builtin_0; "
-                              "assert(arity_ok(b.parameters, args.spec_len())); assert(builtin_accepts(b.body, args.spec_len())); } }")],
                  "contract": """        requires entry(*initial_procedure, args),
         ensures
             // (g) a procedure whose parameter list does not accept the argument count is an ArgumentMissMatch error
@@ -340,6 +337,5 @@ UNIT_ASFOUND = _copy.deepcopy(UNIT)
 for _it in UNIT_ASFOUND["items"]:
     _ms = _it.get("methods") or {}
     if "apply_procedure" in _ms:
-        _ms["apply_procedure"].pop("inserts", None)
         _ms["apply_procedure"]["loops"] = {1: {"expect_kw": "loop", "invariant": """            invariant
                 current_procedure is None ==> args == args0 && arity_ok(params_of(*initial_procedure), args0.spec_len()),"""}}
